@@ -13,6 +13,14 @@ CHECKS = {
        "code-point columns. Known findings: CR/LF junction, TAB in initial file, UTF-16 columns right of astral characters.",
   technique="Rocq proof (refinement of a flat-string client, induction over histories) + model/implementation differential",
   design="4/C02"),
+ "C16": dict(
+  text="Coq theorems (C16/Props.v): json.dumps(ensure_ascii) output is ASCII for every payload over the full code-point range, UTF-8 of ASCII is "
+       "the identity, hence Content-Length = body byte length; the reader model splits any sequence of frames with any of three header layouts "
+       "and arbitrary body bytes into exactly the bodies sent; read(n)/readline over any chunking equal those over the whole stream; "
+       "percent-encoding round-trips for all bytes / all code points. Model tied to fortls.jsonrpc by differential execution; independent framer as oracle.",
+  note="Trusted: Coq kernel, vm_compute, correspondence run, CPython json/io.BufferedReader/urllib/pathlib. Not modelled: JSON structure parsing, floats, Path.resolve.",
+  technique="Rocq proof (codec round trips, ASCII invariant by induction on JSON values) + model/implementation differential",
+  design="4/C16"),
 }
 NOT_YET = "not yet built in this round; see DESIGN.md section 8 (build order)"
 
